@@ -59,6 +59,8 @@ type c11xHub struct {
 	// script[id][phase] = "error": the device with that id refuses the entry of the request under test
 	script map[string]map[string]string
 	salter *salt.Salt
+	// broken: every device fails to initialise (what a log directory that has gone, or a sink that cannot be reached, does)
+	broken bool
 }
 
 type c11xDev struct {
@@ -281,6 +283,10 @@ func c11xBoot(t *testing.T, rt *rapid.T, rec *verifx.Recorder) *c11xWorld {
 	factories := map[string]audit.Factory{
 		"scripted": func(ctx context.Context, cfg *audit.BackendConfig) (audit.Backend, error) {
 			ah.mu.Lock()
+			if ah.broken {
+				ah.mu.Unlock()
+				return nil, fmt.Errorf("verif: audit device %q cannot be initialised", cfg.Config["id"])
+			}
 			ah.insts++
 			inst := ah.insts
 			ah.mu.Unlock()
@@ -779,6 +785,30 @@ func (w *c11xWorld) stepFollow() {
 func (w *c11xWorld) stepSeal() {
 	if err := w.tc.seal(); err != nil {
 		w.t.Fatalf("harness: seal: %v", err)
+	}
+	if len(w.devs) > 0 && fairIndex(w.rt, "unsealWhileEveryDeviceIsBroken", 3) == 0 {
+		// The node comes back while not one of its audit devices can be initialised. It may refuse to unseal (then the
+		// devices are repaired and it is unsealed again); if it does unseal, the table still lists enabled devices and
+		// the probes that follow decide as always: nothing is routed or returned without an accepted entry.
+		w.ah.mu.Lock()
+		w.ah.broken = true
+		w.ah.mu.Unlock()
+		err := w.tc.unseal(w.tc.keys)
+		w.ah.mu.Lock()
+		w.ah.broken = false
+		w.ah.mu.Unlock()
+		if err == nil {
+			w.lookupNS()
+			w.logf("seal+unseal while every audit device fails to initialise: the node unsealed")
+			w.tableChanges++
+			w.rec.Class("table:unseal-with-broken-devices:unsealed", 1)
+			return
+		}
+		w.logf("seal+unseal while every audit device fails to initialise: refused (%v)", err)
+		w.rec.Class("table:unseal-with-broken-devices:refused", 1)
+		if !w.tc.c.Sealed() {
+			_ = w.tc.seal()
+		}
 	}
 	if err := w.tc.unseal(w.tc.keys); err != nil {
 		w.stalled(err)
